@@ -60,6 +60,20 @@ def innerWeightsOfTable (tbl : List (List Int)) : List K :=
   tbl.flatMap fun gr => tbl.map fun gc =>
     ofInt ((List.zipWith (· * ·) gr gc).foldl (· + ·) 0)
 
+/-- `cwiseAbs2().sum()` of a flat vector -/
+def sqNormFlat (a : List K) : K := treeSum (a.length + 1) (a.map fun x => x * x)
+
+/-- `TangentBase::isApprox(t, eps)`: absolute test (`isZero`) when either norm is below `eps`,
+    Eigen's relative `isApprox` otherwise. -/
+def tanIsApprox (a b : List K) (eps : K) : Bool :=
+  if Scalar.lt (Scalar.min (Scalar.sqrt (sqNormFlat a)) (Scalar.sqrt (sqNormFlat b))) eps then
+    (List.zipWith (· - ·) a b).all fun x => Scalar.le (Scalar.abs x) (Scalar.abs (nat 1) * eps)
+  else
+    Scalar.le (sqNormFlat (List.zipWith (· - ·) a b))
+      (eps * eps * Scalar.min (sqNormFlat a) (sqNormFlat b))
+
+def boolK (b : Bool) : K := if b then nat 1 else nat 0
+
 def optJ {J} (f : J → List K) : Option J → List K
   | some j => f j
   | none => []
@@ -145,6 +159,23 @@ def runBase {G T J} (o : GroupOps K G T J) (c : Codec K G T J)
       let (a, _) ← takeT c args
       let W : List K := innerWeightsOfTable c.genTable
       pure (.ok [Scalar.sqrt (dotTree (vecMatFlat c.dof (c.tTo a) W) (c.tTo a))])
+  | "t_isApprox" => do
+      let (a, r) ← takeT c args
+      let (b, r) ← takeT c r
+      match r with
+      | [eps] => pure (.ok [boolK (tanIsApprox (c.tTo a) (c.tTo b) eps)])
+      | [] => pure (.ok [boolK (tanIsApprox (c.tTo a) (c.tTo b) Scalar.eps)])      -- `operator==`
+      | _ => none
+  | "isApprox" => do
+      -- `rminus(m).isApprox(Tangent::Zero(), eps)`
+      let (X, r) ← takeG c args
+      let (Y, r) ← takeG c r
+      let eps ← match r with
+        | [e] => some e
+        | [] => some Scalar.eps          -- `operator==`
+        | _ => none
+      pure ((o.rminus dbg X Y false false).map fun d =>
+        [boolK (tanIsApprox (c.tTo d.val) (c.tTo o.tzero) eps)])
   | "interp_slerp" => do
       let (A, r) ← takeG c args
       let (B, r) ← takeG c r
@@ -600,7 +631,7 @@ def runRn (n : Nat) (_dbg : Bool) (op : String) (mask : Nat) (args : List K) (in
       | [i] => if args.isEmpty then some (Rn.generator n i) else none
       | _ => none
   | "interp_slerp" | "interp_cubic" | "interp_smooth" | "avg_bi" | "avg_w" | "avg_fl" | "avg_fr"
-  | "decasteljau" => runBase (rnOps n) (rnCodec n) _dbg op mask args ints
+  | "decasteljau" | "isApprox" | "t_isApprox" => runBase (rnOps n) (rnCodec n) _dbg op mask args ints
   | _ => none
 
 def groupSizes (grp : String) : Nat × Nat :=
